@@ -31,7 +31,10 @@ LEVEL = 'other'
 LEAN_MODULES = ['MpycV.Props.C18']
 LEAN_NAMESPACES = ['MpycV.C18']
 REQUIRED_THEOREMS = ['mask_sd', 'low_bits_perfect', 'mult_blinding', 'prss_mask_component', 'rerandomized_shares_view',
-                     'product_shares_distinguish']
+                     'product_shares_distinguish',
+                     # the sites behind extra_sites(): what the repaired code requests suffices, what it requested before did not
+                     'np_trunc_mask_parameter', 'np_trunc_old_mask_insufficient', 'pow_mask_total', 'pow_old_mask_small',
+                     'to_bits_bin_perfect', 'to_bits_bin_short_mask_leaks', 'sincos_turns_mask']
 RULE = ('case = one opening site (sgn, trunc, lsb, _mod, to_bits, is_zero_public, reciprocal) x configuration (m, t, PRSS '
         'on/off, sec_param k in {8, 30}, bit length l) x secret input, repeated over N seeds; plus share-level view cases: '
         '(is_zero_public | reciprocal) x type in {SecInt(16), SecFld(8191), SecFld(2^61-1)} (small / medium / large relative '
